@@ -297,7 +297,7 @@ func rewriteFile(fset *token.FileSet, f *ast.File, info *types.Info, yields bool
 				changed = true
 			}
 		case *ast.FuncDecl:
-			if yields && n.Body != nil && n.Name.Name != "init" {
+			if yields && n.Body != nil && n.Name.Name != "init" && countStmts(n.Body) >= 4 { // skip trivial accessors
 				n.Body.List = append([]ast.Stmt{&ast.ExprStmt{X: call("Yield")}}, n.Body.List...)
 				changed = true
 			}
@@ -306,6 +306,17 @@ func rewriteFile(fset *token.FileSet, f *ast.File, info *types.Info, yields bool
 	}
 	astutil.Apply(f, pre, post)
 	return changed, errs
+}
+
+func countStmts(b *ast.BlockStmt) int {
+	n := 0
+	ast.Inspect(b, func(x ast.Node) bool {
+		if _, ok := x.(ast.Stmt); ok {
+			n++
+		}
+		return true
+	})
+	return n - 1 // the block itself
 }
 
 func rewriteSelect(s *ast.SelectStmt, errs *[]string) ast.Stmt {
